@@ -19,6 +19,7 @@ import (
 // ---------------------------------------------------------------- gated replay of Ring schedules (C14, C15)
 
 const unitBytes = 4096 // one model unit; Size = 4 units = the minimum ring of 16384 bytes
+const ringBytes = 4 * unitBytes
 
 // position-dependent stream: the byte at absolute offset o
 func streamByte(o int64) byte {
@@ -146,7 +147,11 @@ type scriptedReader struct{ r *ringRun }
 
 func (s scriptedReader) Read(b []byte) (int, error) {
 	r := s.r
-	r.ev["P"] <- ringEvent{site: "rf.read", m: len(b) / unitBytes}
+	// whatever region the reader is offered must be free: bytes the consumer has not released yet may not be handed out
+	// for writing (a fast peer fills all it is given)
+	pp, cc := r.bf.VerifCursors()
+	over := int64(len(b)) > ringBytes-(pp-cc)
+	r.ev["P"] <- ringEvent{site: "rf.read", m: len(b) / unitBytes, bad: over}
 	c := <-r.ext["P"]
 	if c.op == "quit" || c.n == 0 {
 		return 0, io.EOF
@@ -395,6 +400,9 @@ func replayRing(sc *ringSched, stats map[string]int) string {
 			if !ok {
 				pf, cf := r.bf.VerifLocksFree()
 				return fmt.Sprintf("%s: BLOCKED: the specification enables this step (next stop %s) but the code did not get there within %v (pcond.L free=%v, ccond.L free=%v)", where, st.pc, ringStepTimeout, pf, cf)
+			}
+			if e.site == "rf.read" && e.bad {
+				return fmt.Sprintf("%s: ReadFrom offers its reader %d units although fewer are free: received bytes would overwrite bytes the consumer has not read (cursors)", where, e.m)
 			}
 			if e.site == "wt.corrupt" || e.bad {
 				return fmt.Sprintf("%s: the consumer received bytes that are not the next bytes of the stream", where)
